@@ -86,7 +86,7 @@ inductive GoVal where
   | float (bits : Nat) (f : FloatVal) (r64 rOwn : Bytes)
       -- r64 = FormatFloat(float64(v),'f',-1,64); rOwn = FormatFloat(v,'f',-1,bits)  (residual: stdlib)
   | ptr (tstr : Bytes) (target : Option GoVal)       -- tstr = Type().String()
-  | iface (dyn : Option GoVal)
+  | iface (ty : Bytes) (dyn : Option GoVal)   -- ty = the STATIC type of the interface-typed slot (`interface {}`, `error`, `fmt.Stringer`)
   | slice (tstr elemT : Bytes) (isNil : Bool) (elems : GoVals)
   | array (tstr elemT : Bytes) (elems : GoVals)
   | map (tstr : Bytes) (keyIsString : Bool) (isNil : Bool) (entries : Entries)   -- entries in iteration order
@@ -138,7 +138,7 @@ def GoVal.kind : GoVal → Kind
   | .uint _ _ => .uint
   | .float _ _ _ _ => .float
   | .ptr _ _ => .ptr
-  | .iface _ => .iface
+  | .iface _ _ => .iface
   | .slice _ _ _ _ => .slice
   | .array _ _ _ => .array
   | .map _ _ _ _ => .map
@@ -166,18 +166,26 @@ def GoVal.typeString : GoVal → Bytes
   | .uint bits _ => b! "uint" ++ bitsSuffix bits
   | .float bits _ _ _ => b! "float" ++ bitsSuffix bits
   | .ptr t _ => t
-  | .iface _ => b! "interface {}"
+  | .iface t _ => t
   | .slice t _ _ _ => t
   | .array t _ _ => t
   | .map t _ _ _ => t
   | .struct t _ _ _ => stripTypeId t
   | .other _ t _ _ => t
 
+/-- `Type().Name()` of an interface type read off its `String()`: `error` → `error`, `fmt.Stringer` → `Stringer`,
+interface literals (`interface {}`, `interface { M() }`) → empty -/
+def ifaceName (t : Bytes) : Bytes :=
+  if t.any (fun c => c == 32 || c == 123) then []
+  else match Bytes.lastIndexByte? 46 t with
+    | some i => t.drop (i + 1)
+    | none => t
+
 /-- `Type().Name()`: empty for unnamed composite types -/
 def GoVal.typeName : GoVal → Bytes
   | .struct _ n _ _ => n
   | .ptr _ _ => []
-  | .iface _ => []
+  | .iface t _ => ifaceName t
   | .slice _ _ _ _ => []
   | .array _ _ _ => []
   | .map _ _ _ _ => []
@@ -193,7 +201,7 @@ def GoVal.isZero : GoVal → Bool
   | .uint _ n => n == 0
   | .float _ f _ _ => f.isZero
   | .ptr _ t => t.isNone
-  | .iface d => d.isNone
+  | .iface _ d => d.isNone
   | .slice _ _ isNil _ => isNil
   | .array _ _ es => es.allZero
   | .map _ _ isNil _ => isNil
@@ -257,8 +265,8 @@ def GoVal.fp : GoVal → Bytes
   | .float bits _ _ rOwn => [102] ++ natToBytes bits ++ [58] ++ rOwn ++ [59]
   | .ptr t none => [112] ++ lenPref t ++ [110]
   | .ptr t (some v) => [112] ++ lenPref t ++ v.fp
-  | .iface none => b! "In"
-  | .iface (some v) => [73] ++ v.fp
+  | .iface _ none => b! "In"
+  | .iface _ (some v) => [73] ++ v.fp
   | .slice t _ isNil es => [83] ++ lenPref t ++ (if isNil then [110] else [118]) ++ [91] ++ es.fp ++ [93]
   | .array t _ es => [65] ++ lenPref t ++ [91] ++ es.fp ++ [93]
   | .map t _ isNil es => [77] ++ lenPref t ++ (if isNil then [110] else [118]) ++ [123] ++ (sortBytes es.fps).flatten ++ [125]
